@@ -65,6 +65,18 @@ func c15Cfgs() []*bsCfg {
 			c.Advs, c.MaxAdv, c.Depth, c.OpsPer = []int64{2 * sec}, 1, 6, 5
 			return c
 		}(),
+		// entry pool on: evicted entry objects are recycled for later insertions (what a recycled object still carries
+		// from its previous life must not decide whether the new entry is written back)
+		func() *bsCfg {
+			c := base("simple-pool", 1, []bsOp{S(1), S(2), S(3), H(1), H(2)})
+			c.Pool = true
+			return c
+		}(),
+		func() *bsCfg {
+			c := ld(base("loading-pool", 1, []bsOp{L(1), L(2), L(3), S(1)}), 0)
+			c.Pool = true
+			return c
+		}(),
 		// fault scripts (expanded by c15FaultScripts)
 		base("fault-simple", 1, []bsOp{T(1), T(2), T(3), H(1), D(1)}),
 		ld(base("fault-loading", 2, []bsOp{L(1), L(2), L(3), T(1), D(1)}), long),
